@@ -256,8 +256,11 @@ pub fn run_sequence_fresh<C: Case>(check: CheckFn<C>, history: &[C], last: &C) -
     })
 }
 
-/// How many preceding cases are remembered for history-dependent failures
-pub const HISTORY_LEN: usize = 24;
+/// How many preceding cases are remembered for history-dependent failures (upper bound; the
+/// actual number is scaled down for streams with large cases so that the memory stays bounded)
+pub const HISTORY_LEN: usize = 4000;
+/// rough memory budget of the remembered cases per shard (bytes of their JSON rendering)
+pub const HISTORY_BYTES: usize = 6 << 20;
 
 struct Slot<C> {
     cur: Mutex<Option<(Instant, C)>>,
@@ -504,10 +507,22 @@ impl<C: Case> AnyStream for Stream<C> {
                                 let acc = std::cell::RefCell::new(Acc::default());
                                 let recent: std::cell::RefCell<std::collections::VecDeque<C>> = Default::default();
                                 let first_failure: std::cell::RefCell<Option<Vec<C>>> = Default::default();
+                                let hist_cap = std::cell::Cell::new(HISTORY_LEN);
+                                let seen_cases = std::cell::Cell::new(0usize);
+                                let seen_bytes = std::cell::Cell::new(0usize);
                                 let res = runner.run(&strategy, |c| {
                                     if first_failure.borrow().is_none() {
+                                        // the first 32 cases calibrate how many can be remembered
+                                        if seen_cases.get() < 32 {
+                                            seen_cases.set(seen_cases.get() + 1);
+                                            seen_bytes.set(seen_bytes.get() + serde_json::to_string(&c).map(|t| t.len()).unwrap_or(64));
+                                            if seen_cases.get() == 32 {
+                                                let avg = (seen_bytes.get() / 32).max(16);
+                                                hist_cap.set((HISTORY_BYTES / avg).clamp(24, HISTORY_LEN));
+                                            }
+                                        }
                                         let mut r = recent.borrow_mut();
-                                        if r.len() == HISTORY_LEN + 1 {
+                                        while r.len() > hist_cap.get() {
                                             r.pop_front();
                                         }
                                         r.push_back(c.clone());
@@ -551,18 +566,29 @@ impl<C: Case> AnyStream for Stream<C> {
                                                 };
                                                 match run_sequence_fresh(check, &hist, &last) {
                                                     Err(why0) => {
+                                                        // delta-debugging over the predecessors: drop chunks of
+                                                        // halving size while the last case still fails (60 s budget)
                                                         let mut why = why0;
-                                                        let mut k = 0;
-                                                        while k < hist.len() {
-                                                            let mut shorter = hist.clone();
-                                                            shorter.remove(k);
-                                                            match run_sequence_fresh(check, &shorter, &last) {
-                                                                Err(w) => {
-                                                                    hist = shorter;
-                                                                    why = w;
+                                                        let t_min = Instant::now();
+                                                        let mut chunk = (hist.len() / 2).max(1);
+                                                        loop {
+                                                            let mut k = 0;
+                                                            while k < hist.len() && t_min.elapsed() < Duration::from_secs(60) {
+                                                                let end = (k + chunk).min(hist.len());
+                                                                let mut shorter = hist.clone();
+                                                                shorter.drain(k..end);
+                                                                match run_sequence_fresh(check, &shorter, &last) {
+                                                                    Err(w) => {
+                                                                        hist = shorter;
+                                                                        why = w;
+                                                                    }
+                                                                    Ok(()) => k = end,
                                                                 }
-                                                                Ok(()) => k += 1,
                                                             }
+                                                            if chunk == 1 || t_min.elapsed() >= Duration::from_secs(60) {
+                                                                break;
+                                                            }
+                                                            chunk = (chunk / 2).max(1);
                                                         }
                                                         a.rep.failure = Some(Failure {
                                                             stream: name.to_string(),
